@@ -147,6 +147,8 @@ def gen_proxy_script(rng, thorough):
     hot = rng.sample(pool, min(len(pool), rng.randint(2, 6)))
     version = 0
     eva = {}
+    fast = {}
+    last = None
     dirty = False
     ops = []
     meta = []          # per op: data version (for the replay file)
@@ -163,10 +165,17 @@ def gen_proxy_script(rng, thorough):
         if r < 0.22:
             ops.append("S")      # end of a session: proxy.save, a new proxy loads (search::close / search::init)
             continue
-        k = rng.choice(hot) if rng.random() < 0.8 else rng.choice(pool)
+        k = last if (last is not None and rng.random() < 0.35) else (
+            rng.choice(hot) if rng.random() < 0.8 else rng.choice(pool))
+        last = k
         if (k, version) not in eva:
             eva[(k, version)] = rand_fit(rng)
-        ops.append("E,%s%s" % (kstr(k), fstr(eva[(k, version)])))
+            # the approximate evaluation: a different, recognisable, never empty value
+            fast[(k, version)] = (bits_of(-float(len(fast) + 1)),) + rand_fit(rng, allow_empty=False)
+        if rng.random() < 0.3:
+            ops.append("A,%s%s" % (kstr(k), fstr(fast[(k, version)])))      # proxy.fast(x)
+        else:
+            ops.append("E,%s%s" % (kstr(k), fstr(eva[(k, version)])))
     return "P %d %s" % (bits, " ".join(ops))
 
 
@@ -220,7 +229,7 @@ def parse_dump(s):
 def parse_op(tok):
     p = tok.split(",")
     o = p[0]
-    if o in ("I", "E"):
+    if o in ("I", "E", "A"):
         return o, (int(p[1], 16), int(p[2], 16)), tuple(int(w, 16) for w in p[3:])
     if o in ("F", "X", "U") or (o == "E" and len(p) == 3):
         return o, (int(p[1], 16), int(p[2], 16)), None
@@ -295,6 +304,14 @@ def oracle(script, out):
                                 "op %d: evaluator_proxy::save then load into a new proxy (ok=%s): the new cache holds "
                                 "an entry the saved one did not: %s" %
                                 (n, ok, sorted(set(ea.items()) - set(eb.items()))[0])))
+            if o == "A":
+                r = parse_fit(toks[ti][2:].split("/")[0])
+                ti += 1
+                if r != v:
+                    bad.append(("proxy:fast-not-direct",
+                                "op %d: proxy.fast(%s) returned %s; evaluator_proxy::fast is documented to return the "
+                                "wrapped evaluator's fast() value, which is %s at that moment" %
+                                (n, kstr(a), list(map(hex, r)), list(map(hex, v)))))
             if o == "E":
                 r = parse_fit(toks[ti][2:].split("/")[0])
                 ti += 1
@@ -399,6 +416,8 @@ FIXED_SCRIPTS = [
     "D 7 30 1 9 E,1,5 U,1,5 N,0 E,1,5 U,1,5 G,1 E,1,5 Q,0 E,1,5 U,1,5 N,1 E,1,5 U,1,5",
     "D 7 20 2 3 E,2,9 U,2,9 R E,2,9 N,0 E,2,9 U,2,9",
     "P 7 E,1,5,3ff0000000000000 E,2,6 S E,1,5,3ff0000000000000 E,2,6 C S E,1,5,4000000000000000 E,3,3 S E,3,3 E,1,5,4000000000000000 E,81,5,4008000000000000 S E,81,5,4008000000000000 E,1,5,4000000000000000",
+    # fast() (approximate, never cached) interleaved with operator() on the same individual (seeded/C04-r3-3)
+    "P 7 A,1,5,c000000000000000 E,1,5,3ff0000000000000 A,1,5,c000000000000000 E,1,5,3ff0000000000000 E,2,6,4000000000000000 A,2,6,c008000000000000 E,2,6,4000000000000000 C A,1,5,c010000000000000 E,1,5,4008000000000000",
     "P 7 E,1,5,3ff0000000000000 E,1,5,3ff0000000000000 C E,1,5,4000000000000000 E,2,2 E,2,2 E,81,5,bff8000000000000 E,1,5,4000000000000000",
 ]
 
@@ -473,6 +492,7 @@ def run(ck):
         hist[{"T": "table_scripts", "P": "proxy_scripts", "D": "dss_scripts"}[kind]] += 1
         hist["ops"] += len(s.split()) - (5 if kind == "D" else 2)
         if ho:
+            hist["proxy_fasts"] = hist.get("proxy_fasts", 0) + ho.count("a=")
             hist["finds"] += ho.count("f=")
             hist["saveloads"] += ho.count("s=")
             hist["proxy_evals"] += ho.count("e=")
